@@ -217,6 +217,11 @@ def shard_main(argv):
     ap.add_argument('--budget', type=float, default=0)
     a = ap.parse_args(argv)
     faulthandler.enable()
+    # watchdog: if the shard is still running shortly before the main process would kill it, dump every thread's stack to
+    # the shard log (the run is then reported as INCONCLUSIVE, never as a verdict)
+    wd = float(os.environ.get('BCVERIF_WATCHDOG', '0') or 0)
+    if wd > 0:
+        faulthandler.dump_traceback_later(wd, exit=False)
     from . import attach
     attach.import_repo()
     mod = importlib.import_module('bcverif.props.%s' % a.prop.lower())
@@ -283,7 +288,7 @@ def run_check(prop, tier='quick', seed=0, jobs=None, replay=None):
     env.update({'OMP_NUM_THREADS': '1', 'OPENBLAS_NUM_THREADS': '1', 'MKL_NUM_THREADS': '1',
                 'PYTHONPATH': HERE + os.pathsep + env.get('PYTHONPATH', ''),
                 'PYTHONHASHSEED': '0', 'MPLBACKEND': 'Agg', 'BYCYCLE_VERIF': '1',
-                'BCVERIF_WORK': work, 'PYTHONDONTWRITEBYTECODE': '1'})
+                'BCVERIF_WORK': work, 'PYTHONDONTWRITEBYTECODE': '1', 'BCVERIF_WATCHDOG': str(max(30, timeout - 20))})
     procs = []
     for s in range(nshards):
         out = os.path.join(work, 'shard%d.json' % s)
